@@ -2,7 +2,7 @@
 import ast
 from vlib.model import AnalysisError, dump, kwarg, call_name
 from vlib.cfg import cfg_of, node_calls, node_exprs
-from vlib.flow import dominators, Explorer
+from vlib.flow import dominators, Explorer, reachable_avoiding
 from vlib import prov, q, narrow
 from vlib.locks import ClassLocks
 from rules import common
@@ -114,6 +114,34 @@ def check(ck):
 
     # ---- C16.3 containment ----------------------------------------------------------------------------------
     fn_ = prog.func(TP, "FutureResult.__notify")
+    fentry = fn_
+
+    def _cb_calls(fi_):
+        out_ = []
+        g_ = cfg_of(fi_)
+        for n_ in g_.live_nodes():
+            for c_ in node_calls(n_):
+                if len(c_.args) == 3 or (isinstance(c_.func, ast.Name) and "callback" in c_.func.id) or dump(c_.func) == "self.__callback":
+                    t_ = prov.origin(g_, n_, c_.func)
+                    if prov.contains(t_, lambda x: x == ("attr", ("param", "self"), "__callback")):
+                        out_.append((n_, c_))
+        return out_
+    if not _cb_calls(fn_):
+        # the delivery was moved into a helper that __notify calls: every notification attempt must still reach it
+        helpers = [m for m in fr.methods.values() if m is not fn_ and _cb_calls(m)]
+        if len(helpers) == 1:
+            hname = helpers[0].name
+            ge = cfg_of(fentry)
+            hcalls = set(n.id for n in ge.live_nodes() for c in node_calls(n) if isinstance(c.func, ast.Attribute) and dump(c.func.value) == "self"
+                         and c.func.attr == hname)
+            if not hcalls:
+                raise AnalysisError("anchor vanished: __notify does not call the method that invokes the callback (%s)" % hname)
+            skip = reachable_avoiding(ge, ge.entry.id, hcalls, lambda l: l != "exc")
+            ck.require(ge.return_exit.id not in skip, "C16.5", "%s: every notification attempt looks at the registration" % q.fn(fentry),
+                       "each path calls %s()" % hname,
+                       "__notify can return without calling %s(), i.e. without looking at the registration (an early exit on a flag): a "
+                       "callback registered just before that attempt is stored but never invoked" % hname, q.loc(fentry, fentry.node))
+            fn_ = helpers[0]
     gn = cfg_of(fn_)
     cb_calls = []
     for n in gn.live_nodes():
